@@ -10,6 +10,9 @@ HERE = os.path.dirname(os.path.dirname(os.path.abspath(__file__)))
 BEGIN, END = '<!-- SEEDED-BEGIN -->', '<!-- SEEDED-END -->'
 
 OUT_OF_SCOPE = {
+    'C19-8': 'not a violation of the statement (same situation as C10-1): for a range whose corners share a row or column it '
+             'moves a $ marker from one corner to the other; coordinates and labels of both corners stay right, and the '
+             'statements fix marker fidelity for single cells and for label decomposition, not for range corners on ties',
     'C06-6': 'not a violation of any statement: it shifts the serial of date-times inside 28 February 1900 (not at midnight) by '
              'one; before 1 March 1900 the statements (C13) demand only the date -> serial -> date round trip and strict '
              'monotonicity, both of which still hold, and C06 speaks of "their serial" without fixing it there',
